@@ -17,9 +17,11 @@ d) ScalarValue::to_json / Serialize have an explicit arm per variant; From<serde
 (g) the kind of a value that comes back is decided by the field's declared type, never by what the stored text looks like: a function that turns a stored / carried string cell into one of several
 value kinds by *parsing the text* (str::parse, serde_json::from_str, comparison with "true" / "false" / "null") without receiving the field's type returns `"123"` of a string field as the number 123.
 Armed for the two conversion points on the read path: EventBuilder::add_payload_field (rows rebuilt from segment columns) and ScalarValue::to_json (every response).
+(h) bit addressing: every null / value bitmap access in the column layer has the shape `bytes[a / 8] (&|) (1 << (b % 8))`; the byte index and the bit index must be taken from the same row index
+(a and b are copies of one variable) - all writers and readers in engine::core::{column, write} are compared; `bytes[(i - start) / 8] & (1 << (i % 8))` reads another row's bit.
 """
-FLOOR = 8
-REQUIRED = ["C07.a1", "C07.a2", "C07.b", "C07.c", "C07.d", "C07.e", "C07.f", "C07.g"]
+FLOOR = 9
+REQUIRED = ["C07.a1", "C07.a2", "C07.b", "C07.c", "C07.d", "C07.e", "C07.f", "C07.g", "C07.h"]
 
 NUM = {"I64", "U64", "F64", "Bool"}
 
@@ -345,3 +347,102 @@ def run(ctx):
                 bad.append(("content-typed:%s" % nm, "%s chooses the kind of %s by parsing its text (%s) without knowing the field's declared type: a string that looks like a number / boolean / null / JSON comes back as that" % (nm, what, ", ".join(probes)), None))
         return bad
     ctx.run("C07.g", "K10 READS", "EventBuilder::add_payload_field / ScalarValue::to_json", "the kind of a returned value comes from the schema, not from the stored text", g_)
+
+    def h_(inst):
+        bad, n = [], 0
+        keys = [k for k in F.keys() if re.match(r"^engine::core::(column|write)::", k) and not k.startswith("bin:")]
+
+        def root(b, opnd, depth=8):
+            if isinstance(opnd, dict) and "k" in opnd:
+                return ("const", opnd["k"])
+            pl = opnd.get("m") or opnd.get("c") if isinstance(opnd, dict) else opnd
+            while pl and depth > 0:
+                l = pl[0]
+                if b.local_name(l) and len([p_ for p_ in pl[1:] if p_ != "*"]) == 0:
+                    return ("local", l)
+                ds = [d_ for d_ in b.defs().get(l, []) if d_[1] != -1 and len(d_[2]) == 1]
+                if len(ds) != 1:
+                    return ("local", l)
+                rv = ds[0][3]
+                if rv.get("r") == "use":
+                    o2 = rv["o"]
+                    if "k" in o2:
+                        return ("const", o2["k"])
+                    pl = o2.get("m") or o2.get("c")
+                    depth -= 1
+                    continue
+                if rv.get("r") == "bin":
+                    return ("expr", rv["op"], root(b, rv["a"], depth - 1), root(b, rv["b"], depth - 1))
+                return ("local", l)
+            return ("?",)
+        for k in keys:
+            b = F.fn_exact(k)
+            shl = {}
+            div = {}
+            for i in b.live_blocks():
+                for st in b.blocks[i]["s"]:
+                    v = st.get("v")
+                    if not v or v.get("r") != "bin" or not st.get("a") or len(st["a"]) != 1:
+                        continue
+                    if v["op"] == "Shl" and (v["a"].get("k") or "").startswith("1_"):
+                        # rhs = Rem(x, 8)
+                        pl = v["b"].get("m") or v["b"].get("c")
+                        for d_ in b.defs().get(pl[0], []) if pl else []:
+                            rv = d_[3]
+                            if d_[1] != -1 and rv.get("r") == "bin" and rv["op"] == "Rem" and (rv["b"].get("k") or "").startswith("8_"):
+                                shl[st["a"][0]] = (i, rv["a"])
+                    if v["op"] == "Div" and (v["b"].get("k") or "").startswith("8_"):
+                        div[st["a"][0]] = (i, v["a"])
+            if not shl:
+                continue
+            # pair: a BitAnd/BitOr whose one operand is the shifted mask and whose other operand / destination is indexed by a Div-by-8 local
+            for i in b.live_blocks():
+                for st in b.blocks[i]["s"]:
+                    v = st.get("v")
+                    if not v or v.get("r") != "bin" or v["op"] not in ("BitAnd", "BitOr"):
+                        continue
+                    ops = [v["a"], v["b"]]
+                    masks = []
+                    for o_ in ops:
+                        pl = o_.get("m") or o_.get("c")
+                        if pl and pl[0] in shl and len(pl) == 1:
+                            masks.append(shl[pl[0]])
+                    if not masks:
+                        continue
+                    idx_locals = set()
+                    for o_ in ops + [{"m": st.get("a")}]:
+                        pl = o_.get("m") or o_.get("c") or []
+                        for p_ in pl[1:]:
+                            m_ = re.match(r"^\[_(\d+)\]$", str(p_))
+                            if m_:
+                                idx_locals.add(int(m_.group(1)))
+                        # Vec<u8> bitmaps are indexed through Index::index / IndexMut::index_mut(vec, _d)
+                        if pl:
+                            for d_ in b.defs().get(pl[0], []):
+                                if d_[1] == -1 and re.search(r"::index(_mut)?$", (d_[3]["f"].get("p") or d_[3]["f"].get("u") or "")):
+                                    a1 = (d_[3].get("args") or [None, None])[1]
+                                    p1 = (a1.get("m") or a1.get("c")) if isinstance(a1, dict) else None
+                                    if p1 and len(p1) == 1:
+                                        idx_locals.add(p1[0])
+                        # the byte may have been copied out first: `_x = bytes[_d]; BitAnd(_x, mask)`
+                        if pl and len(pl) == 1:
+                            for d_ in b.defs().get(pl[0], []):
+                                rv = d_[3]
+                                if d_[1] != -1 and rv.get("r") == "use":
+                                    p2 = rv["o"].get("m") or rv["o"].get("c") or []
+                                    for p_ in p2[1:]:
+                                        m_ = re.match(r"^\[_(\d+)\]$", str(p_))
+                                        if m_:
+                                            idx_locals.add(int(m_.group(1)))
+                    for dl in idx_locals:
+                        if dl not in div:
+                            continue
+                        n += 1
+                        ra, rb = root(b, div[dl][1]), root(b, masks[0][1])
+                        if ra != rb:
+                            bad.append(("byte-bit-index-differ:%s" % norm_path(k).split("::{closure")[0], "%s (%s): the bitmap byte is addressed by %s / 8 but the bit by %s %% 8" % (norm_path(k).split("::")[-1], sp(b, i), ra, rb), None))
+        inst.sites.append("bitmap bit accesses compared: %d" % n)
+        if n < 10:
+            raise AnchorMissing("bitmap accesses of the shape bytes[a/8] op (1 << (b%%8)) (found %d, counted 15)" % n)
+        return bad
+    ctx.run("C07.h", "K11 SIB", "null / value bitmap accesses in engine::core::{column, write}", "byte index and bit index of a bitmap access come from the same row index", h_)
